@@ -91,6 +91,19 @@ def run_property(modname, tier, seed=0, replay_file=None):
 
     obs = mod.obligations(tier)
     results = []
+    validation_traces = 0
+    pre = getattr(mod, "PRECHECK", None)
+    if pre is not None:
+        try:
+            validation_traces, pre_ok, pre_msg = pre()
+        except Exception as e:
+            validation_traces, pre_ok, pre_msg = 0, False, "precheck raised %s: %s" % (type(e).__name__, e)
+        print("[%s] precheck: %s" % (pid, pre_msg), flush=True)
+        if not pre_ok:
+            # the environment model misrepresents the code under analysis: no verdict of this check can be trusted
+            results = [dict(name=ob.name, bounds=ob.bounds, verdict="inconclusive",
+                            inconclusive_reason="stub validation failed: " + pre_msg) for ob in obs]
+            obs = []
     print("[%s] %s tier: %d obligations on %d cores" % (pid, tier, len(obs), CORES), flush=True)
 
     def job(ob):
@@ -140,7 +153,7 @@ def run_property(modname, tier, seed=0, replay_file=None):
     if not samples:
         samples = [dict(obligation=r.get("name"), note="no witness extracted", verdict=r.get("verdict")) for r in results[:3]]
     traces = sum(1 for r in results if r.get("twin", {}).get("replay")) + sum(1 for r in results if r.get("replayed"))
-    traces += int(getattr(mod, "VALIDATION_TRACES", lambda: 0)()) if callable(getattr(mod, "VALIDATION_TRACES", None)) else 0
+    traces += int(validation_traces)
     ev = dict(
         property_id=pid, tier=tier, seed=seed, level=level,
         coverage=dict(
